@@ -19,8 +19,11 @@ BASE = rv32.MINADDR
 M = rv32.M
 
 
-def build(mode, progmap, regs, words, pc0=0, hazard=True):
-    sim = rv.make_sim(mode, [], regs, words, hazard=hazard)
+def build(mode, progmap, regs, words, pc0=0, hazard=True, caches=None):
+    """caches: None or (data-cache tuple or None, instruction-cache tuple or None), each (index bits, block bits, ways, kind, policy, penalty)."""
+    dc = rv.cache_opts(*caches[0]) if caches and caches[0] else None
+    ic = rv.cache_opts(*caches[1]) if caches and caches[1] else None
+    sim = rv.make_sim(mode, [], regs, words, hazard=hazard, dcache=dc, icache=ic)
     im = sim.state.instruction_memory
     for a, ins in progmap.items():
         im.write_instruction(a, rv.impl_of(ins, a))
@@ -50,14 +53,14 @@ def run_five_until(sim, maxcycles, stop_after_retired=None):
     return retired, err, err_repr, exc, n
 
 
-def compare_modes(progmap, regs, words, steps, pc0=0):
+def compare_modes(progmap, regs, words, steps, pc0=0, caches=None):
     """Returns (single RunResult, list of (field, detail))."""
-    s1 = build(rv.SINGLE, progmap, regs, words, pc0)
+    s1 = build(rv.SINGLE, progmap, regs, words, pc0, caches=caches)
     one = rv.run(s1, steps)
     bad = []
     if one.exc is not None:
         return one, [("single-exception", one.exc)]
-    s5 = build(rv.FIVE, progmap, regs, words, pc0)
+    s5 = build(rv.FIVE, progmap, regs, words, pc0, caches=caches)
     budget = 8 * max(one.steps, 1) + 16
     finished = one.done or one.err is not None
     retired, err, err_repr, exc, n = run_five_until(s5, budget, None if finished else len(one.retired))
@@ -115,8 +118,8 @@ def _regdiff(a, b):
     return f"registers differ (index, single, five-stage): {d[:4]}"
 
 
-def case_of(progmap, regs, words, steps, pc0):
-    return dict(kind="pipe", progmap={str(a): list(i) for a, i in sorted(progmap.items())},
+def case_of(progmap, regs, words, steps, pc0, caches=None):
+    return dict(kind="pipe", caches=caches, progmap={str(a): list(i) for a, i in sorted(progmap.items())},
                 prog=[list(progmap[a]) for a in sorted(progmap)], regs={str(k): v for k, v in regs.items()},
                 words={str(k): v for k, v in words.items()}, steps=steps, pc0=pc0)
 
@@ -125,7 +128,10 @@ def replay(case):
     progmap = {int(a): tuple(i) for a, i in case["progmap"].items()}
     regs = {int(k): v for k, v in case["regs"].items()}
     words = {int(k): v for k, v in case["words"].items()}
-    _one, bad = compare_modes(progmap, regs, words, case["steps"], case.get("pc0", 0))
+    caches = case.get("caches")
+    if caches:
+        caches = tuple(tuple(c) if c else None for c in caches)
+    _one, bad = compare_modes(progmap, regs, words, case["steps"], case.get("pc0", 0), caches=caches)
     sigextra = case.get("sig", {})
     return [(dict(oracle="five-vs-single", field=f, **sigextra), f"{_ptxt(progmap)}: {d}") for f, d in bad]
 
@@ -327,6 +333,36 @@ def fault_neighbour_shard(shard):
     return p
 
 
+CACHED = [((0, 0, 1, "wb", "lru", 0), None), ((0, 0, 2, "wt", "lru", 3), None), ((1, 0, 2, "wb", "plru", 1), (0, 0, 2, "wb", "lru", 2)),
+          ((0, 1, 1, "wt", "lru", 2), (1, 1, 1, "wb", "lru", 0)), (None, (0, 1, 2, "wb", "plru", 3)), ((1, 1, 2, "wt", "plru", 0), (0, 0, 4, "wb", "plru", 1))]
+
+
+def cached_shard(shard):
+    """Mode equivalence with caches switched on: every program over the memory alphabet of C03 (loads and stores of every width
+    that conflict in one set, stores through a negative address, print-string ecall, wrong-path accesses) under data / instruction
+    cache configurations — five-stage mode must equal single-cycle mode run with the SAME caches."""
+    from vf.checks import c03
+    length, first = shard
+    A = c03.mem_alphabet()
+    p = Partial()
+    for tail in itertools.product(range(len(A)), repeat=length - 1):
+        idx = (first,) + tail
+        prog = [A[i] for i in idx]
+        pm = {4 * i: x for i, x in enumerate(prog)}
+        str_regs = {**c03.PROG_REGS, 17: 4, 10: c03.BASE + 64}
+        for regs_in in ((c03.PROG_REGS, str_regs) if any(i[0] == "ecall" for i in prog) else (c03.PROG_REGS,)):
+            for ci, caches in enumerate(CACHED):
+                one, bad = compare_modes(pm, regs_in, c03.PROG_WORDS, 40, caches=caches)
+                p.evaluations += 1
+                if one.steps > 1:
+                    p.nontrivial += 1
+                p.counters["mode-equivalence-with-caches"] += 1
+                for fl, d in bad:
+                    p.violation(dict(oracle="five-vs-single", field=fl, caches="on"), dict(case_of(pm, regs_in, c03.PROG_WORDS, 40, 0, caches), sig=dict(caches="on")),
+                                f"[{rv.prog_text(prog)}] caches {caches}{' a7=4 a0=string' if regs_in is str_regs else ''}: {d}", size=(length, idx, ci))
+    return p
+
+
 def program_shards(seed, big, L, nstates, steps):
     n = len(alpha.hazard_alphabet(seed, big))
     if L >= 4:
@@ -377,4 +413,11 @@ def run(ctx):
     parts = 64
     part = pmap(template_shard, [(seed, thorough, i, parts, nstates, 60) for i in range(parts)])
     ctx.space("templates", part, t0)
+    from vf.checks import c03
+    for L in range(1, (3 if ctx.quick else 4) + 1):
+        t0 = time.time()
+        part = pmap(cached_shard, [(L, f) for f in range(len(c03.mem_alphabet()))])
+        ctx.space(f"cached-programs-len{L}", part, t0, length=L, cache_configurations=len(CACHED),
+                  note="five-stage vs single-cycle, both with the same data / instruction caches")
+    ctx.require("mode-equivalence-with-caches")
     ctx.extra["bounds"] = dict(program_length_H18=4 if ctx.quick else 5, program_length_H30=3 if ctx.quick else 4, step_horizon=steps)
